@@ -504,9 +504,6 @@ handle_arglist(spif_int32_t n, spif_charptr_t val_ptr, unsigned char hasequal,
             /* The first entry is the value itself (it may be attached to the option word). */
             tmp[k] = (spif_charptr_t) STRDUP((k == 0) ? ((char *) val_ptr) : (argv[k + i]));
             D_OPTIONS(("tmp[%lu] == %s\n", k, tmp[k]));
-            if (SPIFOPT_FLAGS_IS_SET(SPIFOPT_SETTING_REMOVE_ARGS)) {
-                argv[k + i] = NULL;
-            }
         }
         tmp[k] = (spif_charptr_t) NULL;
         *((spif_charptr_t **) SPIFOPT_OPT_VALUE(n)) = tmp;
@@ -667,6 +664,12 @@ spifopt_parse(int argc, char *argv[])
                 handle_arglist(j, val_ptr, hasequal, i, argc, argv);
             }
             if (!hasequal) {
+                /* The rest of the line belongs to this option, whichever pass handles it. */
+                if (!SPIFOPT_FLAGS_IS_SET(SPIFOPT_SETTING_PREPARSE) && SPIFOPT_FLAGS_IS_SET(SPIFOPT_SETTING_REMOVE_ARGS)) {
+                    for (; i < argc; i++) {
+                        argv[i] = NULL;
+                    }
+                }
                 break;
             }
         } else if (SPIFOPT_OPT_IS_ABSTRACT(j)) {
